@@ -13,6 +13,7 @@ type grec struct {
 	hdr     [][2]string // in order, including WARC-Type, excluding Content-Length / digests (added by serialize)
 	block   []byte
 	httpHead int // length of the http head inside block, -1 when the block is not http
+	badHead  bool
 	// declared values
 	declLen     string // "" = truthful
 	blockDigest string // "" = none, else field value
@@ -91,11 +92,18 @@ func genRecord(r *rng) *grec {
 		if !isResp {
 			head = pick(r, httpReqHeads)
 		}
+		if r.chance(1, 5) {
+			head = pick(r, httpBadHeads) // no terminator, garbage, too short ...
+			g.badHead = true
+		}
 		ct = "application/http;msgtype=" + g.rtype
 		if r.chance(1, 5) {
 			ct = pick(r, []string{"application/http; msgtype=" + g.rtype, "Application/HTTP", "application/http"})
 		}
 		pl := pick(r, payloadPool)
+		if !strings.HasSuffix(head, "\n\r\n") && !strings.HasSuffix(head, "\n\n") {
+			pl = "" // a head without terminator swallows everything that follows
+		}
 		g.block = []byte(head + pl)
 		g.httpHead = len(head)
 		add("WARC-Target-URI", pick(r, []string{"http://example.com/", "https://www.example.org/a/b?c=d", "http://example.com/%7Euser"}))
@@ -209,7 +217,7 @@ func (g *grec) declare(r *rng, allowWrong bool) {
 			}
 		}
 	}
-	g.truth = fmt.Sprintf("len=%s;bd=%s;pd=%s;clean=t", lenT, bdT, pdT)
+	g.truth = fmt.Sprintf("len=%s;bd=%s;pd=%s;clean=%s", lenT, bdT, pdT, tf(!g.badHead))
 }
 
 func (g *grec) fields() [][2]string {
